@@ -5,6 +5,11 @@ V = os.path.dirname(os.path.dirname(os.path.abspath(__file__)))
 
 # id -> dict(level, engine, technique, text, note, design)
 CLAIMED = {
+ "C06": dict(level="exploration", engine="lib-inproc",
+   technique="totality monitor (panic hook, line-counting Input for read-ahead, CPU-time watchdog, deep nesting on an 8 MiB stack) and parse-print-parse round-trip oracle on the real Lexer/Parser and Display implementations",
+   text="39 deep-nesting texts (13 constructs x depth 50/100/200); the 100 scripted-test files and each script embedded in them; 6*10^4 (quick) / 2*10^6 (thorough) texts: programs from a text-level grammar covering every construct (assignments incl. arrays, redirections in every position incl. before reserved-word command names, all compound commands, function definitions, all case terminators, all word units and parameter modifiers, here-documents, comments, continuations), single/double mutations of them and byte/Unicode soup. Each command line parsed without here-documents is printed, re-parsed and compared with locations erased; printing is checked idempotent.",
+   note="Trusted: the Debug rendering with Location scrubbed as the tree-equality oracle. About 15% of unmutated generated programs end in a syntax error (counted in the evidence). Consumers (typeset -fp) are exercised by C07.",
+   design="5/C06"),
  "C05": dict(level="exploration", engine="vsh-virtual + vsh-real",
    technique="reference-model monitor: component-wise glob over a model tree (using the POSIX pattern model) vs the argument vector `probe PATTERN` receives; same trees on the real file system for a sample",
    text="All pattern words of up to 3 (quick) / 4 characters over {a b . * ? [ ] - /} unquoted and {* ? [ a . backslash} quoted, on 12 / 40 random trees (names a b ab .a .b - [ * a] ba c.d in the root and in sub/ .hid/ d2/ e/ e-/ e.f/ and their dd/ subdirectories, a file symlink, a mode-000 directory), every 6th tree with set -f; random 1-4 component patterns (absolute, ., .., trailing slash) on 400 / 6000 trees of which a quarter (with symlinks to directories) run on the real file system with the same harness shell.",
